@@ -4,7 +4,7 @@
 # each (tools/run_seeded.py), and remove the worktree.   usage: tools/ingest_seed.sh Cnn [base=5]
 P=$1; BASE=${2:-5}
 V=$(cd "$(dirname "$0")/.." && pwd)
-WT=/tmp/wt4-$P
+WT=${SEEDWT:-/tmp/wt4}-$P
 [ -d "$WT" ] || { echo "no worktree $WT"; exit 2; }
 IDS=""
 for k in 1 2; do
